@@ -5,6 +5,7 @@ import (
 	"reflect"
 	"sort"
 	"strconv"
+	"sync"
 )
 
 // Keys returns the keys of m in the order the world dictates. It replaces `for k := range m`.
@@ -313,6 +314,23 @@ func MapsAll[M ~map[K]V, K comparable, V any](m M) func(yield func(K, V) bool) {
 			if v, ok := m[k]; ok && !yield(k, v) {
 				return
 			}
+		}
+	}
+}
+
+// SyncMapRange replaces (*sync.Map).Range: the entries are visited in the world's map order (a
+// snapshot taken first; Range promises no more than "each key at most once", so a snapshot is within
+// its contract). With no world installed it is the real Range.
+func SyncMapRange(m *sync.Map, f func(key, value any) bool) {
+	if W == nil && !canonical {
+		m.Range(f)
+		return
+	}
+	tmp := map[any]any{}
+	m.Range(func(k, v any) bool { tmp[k] = v; return true })
+	for _, k := range Keys(tmp) {
+		if !f(k, tmp[k]) {
+			return
 		}
 	}
 }
